@@ -2,7 +2,7 @@
    __aenter__/__aexit__) used by C01.  A teardown callback is a finite tree: the callbacks it
    registers while it runs are its children.  Definitions only. *)
 From Coq Require Import List Bool Arith.
-From Asphalt Require Import Gen.Gen_coalesce.
+From Asphalt Require Import Gen.Gen_coalesce Gen.Gen_lifecycle.
 Import ListNotations.
 
 (* exceptions: a leaf is identified by a number and is either an Exception or only a
@@ -55,19 +55,29 @@ Definition ends (cancelled : bool) (c : cb) : how :=
 Definition collected (h : how) : list cexc :=
   match h with HOk => [] | HRaised e => [CE e] | HCancelled => [CCancel] end.
 
-(* the pop-until-empty loop; the top of the stack is the LAST element (list.pop()) *)
+(* The list of registered callbacks and the loop over it, with the shape the translator read from
+   Context.add_teardown_callback / _run_teardown_callbacks on this run (Gen/Gen_lifecycle.v):
+   where a registration lands, which end is popped, what a pass_exception callback is handed. *)
+Definition register (stack adds : list cb) : list cb :=
+  if td_registers_at_end then stack ++ adds else rev adds ++ stack.
+Definition pop (stack : list cb) : option (cb * list cb) :=
+  if td_pops_last then match rev stack with [] => None | c :: r => Some (c, rev r) end
+  else match stack with [] => None | c :: r => Some (c, r) end.
+Definition passed (orig : option exc) : option exc := if td_arg_is_exit_exception then orig else None.
+
+(* the pop-until-empty loop *)
 Fixpoint teardown (fuel : nat) (cancelled : bool) (stack : list cb) (orig : option exc)
   : option (list tev * list cexc) :=
   match fuel with
   | O => match stack with [] => Some ([], []) | _ => None end
   | S f =>
-    match rev stack with
-    | [] => Some ([], [])
-    | c :: rest_rev =>
-        match teardown f cancelled (rev rest_rev ++ cb_adds c) orig with
+    match pop stack with
+    | None => Some ([], [])
+    | Some (c, rest) =>
+        match teardown f cancelled (register rest (cb_adds c)) orig with
         | None => None
         | Some (tr, ex) =>
-            Some (Begin (cb_id c) (if cb_pass c then Some orig else None)
+            Some (Begin (cb_id c) (if cb_pass c then Some (passed orig) else None)
                   :: End_ (cb_id c) (ends cancelled c) :: tr,
                   collected (ends cancelled c) ++ ex)
         end
@@ -106,23 +116,40 @@ Fixpoint plain (l : list cexc) : option (list exc) :=
   | CCancel :: _ => None
   end.
 
-(* __aexit__: the teardown callbacks are the innermost exit-stack entry; a root context
-   additionally leaves its task group (which wraps whatever passes through it in a group) and
-   then coalesce_exceptions *)
+(* __aexit__ unwinds the exit stack __aenter__ built -- the entries, their order and the condition
+   under which each is pushed are read from the source on this run (Gen_lifecycle.exit_entries).
+   What each entry does to the exception on its way out: the teardown callbacks replace it by one
+   group of what they raised (its cause: the exception that ended the block); the root's task
+   group wraps whatever passes through it in a group; coalesce_exceptions; the other two
+   (resetting the current context, leaving the parent's registry) do not touch it. *)
+Inductive pend := PNone | PExc (e : exc) (cause : option exc).
+Definition run_entry (block : ending) (td : list exc) (p : pend) (en : exit_entry) : pend :=
+  match en with
+  | E_teardown_callbacks =>
+      match td with
+      | [] => p
+      | _ => PExc (Grp td) (if td_cause_is_exit_exception then orig_of block else None)
+      end
+  | E_task_group => match p with PExc e c => PExc (Grp [e]) c | PNone => PNone end
+  | E_coalesce => match p with PExc e c => PExc (coalesce e) c | PNone => PNone end
+  | E_reset_current => p
+  | E_child_deregister => p
+  end.
+Definition unwind (block : ending) (td : list exc) (entries : list exit_entry) (p : pend) : pend :=
+  fold_left (run_entry block td) (rev entries) p.
+
 Definition aexit (is_root : bool) (block : ending) (ex : list cexc) : outcome :=
   match block with
   | Cancel => OCancelled
   | _ =>
       match plain ex with
       | None => OCancelled
-      | Some [] =>
-          match block with
-          | Raise e => ORaise (if is_root then coalesce (Grp [e]) else e) None
-          | _ => ONormal
-          end
       | Some td =>
-          (* raise BaseExceptionGroup(..., exceptions) from original_exception *)
-          ORaise (if is_root then coalesce (Grp [Grp td]) else Grp td) (orig_of block)
+          match unwind block td (exit_entries (negb is_root))
+                       (match block with Raise e => PExc e None | _ => PNone end) with
+          | PNone => ONormal
+          | PExc e c => ORaise e c
+          end
       end
   end.
 
